@@ -83,6 +83,77 @@ impl<'s> Semantics<'s> {
         Ok(())
     }
 
+    /// Shifts and rotates leave every flag untouched when the masked count is
+    /// zero. `head_index` holds the operand loads; the flag assignments go
+    /// into a block of their own which is skipped for a zero count, and the
+    /// destination is written afterwards.
+    fn shift_finish(
+        &self,
+        control_flow_graph: &mut ControlFlowGraph,
+        head_index: usize,
+        count: Expression,
+        flags: Vec<(Scalar, Expression)>,
+        destination: &cs_x86_op,
+        result: Expression,
+    ) -> Result<(), Error> {
+        // an immediate count is known now
+        if count.scalars().is_empty() {
+            let count_is_zero = crate::executor::eval(&count)?.is_zero();
+            let block = control_flow_graph.block_mut(head_index)?;
+            if !count_is_zero {
+                for (flag, expr) in flags {
+                    block.assign(flag, expr);
+                }
+            }
+            self.operand_store(block, destination, result)?;
+            control_flow_graph.set_entry(head_index)?;
+            control_flow_graph.set_exit(head_index)?;
+            return Ok(());
+        }
+
+        let flags_index = {
+            let block = control_flow_graph.new_block()?;
+            for (flag, expr) in flags {
+                block.assign(flag, expr);
+            }
+            block.index()
+        };
+
+        let tail_index = {
+            let block = control_flow_graph.new_block()?;
+            self.operand_store(block, destination, result)?;
+            block.index()
+        };
+
+        let zero = expr_const(0, count.bits());
+        control_flow_graph.conditional_edge(
+            head_index,
+            flags_index,
+            Expr::cmpneq(count.clone(), zero.clone())?,
+        )?;
+        control_flow_graph.conditional_edge(head_index, tail_index, Expr::cmpeq(count, zero)?)?;
+        control_flow_graph.unconditional_edge(flags_index, tail_index)?;
+
+        control_flow_graph.set_entry(head_index)?;
+        control_flow_graph.set_exit(tail_index)?;
+
+        Ok(())
+    }
+
+    fn zf_expr(result: &Expression) -> Result<Expression, Error> {
+        Expr::cmpeq(result.clone(), expr_const(0, result.bits()))
+    }
+
+    fn sf_expr(result: &Expression) -> Result<Expression, Error> {
+        Expr::trun(
+            1,
+            Expr::shr(
+                result.clone(),
+                expr_const((result.bits() - 1) as u64, result.bits()),
+            )?,
+        )
+    }
+
     /// Convenience function to set the OF flag based on result and both operands.
     /// For subtraction (subtract=true): OF = (lhs ^ rhs) & (lhs ^ result)
     /// For addition (subtract=false): OF = ~(lhs ^ rhs) & (lhs ^ result)
@@ -3361,18 +3432,30 @@ impl<'s> Semantics<'s> {
     pub fn rol(&self, control_flow_graph: &mut ControlFlowGraph) -> Result<(), Error> {
         let detail = self.details()?;
 
-        let block_index = {
+        let (head_index, masked_count, flags, result) = {
             let block = control_flow_graph.new_block()?;
 
             // get operands
             let lhs = self.operand_load(block, &detail.operands[0])?;
-            let count = self.operand_load(block, &detail.operands[1])?;
+            let mut count = self.operand_load(block, &detail.operands[1])?;
 
-            let mut count = match lhs.bits() {
-                8 => Expr::and(count.clone(), expr_const(0x7, count.bits()))?,
-                16 => Expr::and(count.clone(), expr_const(0xf, count.bits()))?,
-                32 => Expr::and(count.clone(), expr_const(0x1f, count.bits()))?,
-                64 => Expr::and(count.clone(), expr_const(0x3f, count.bits()))?,
+            if count.bits() < lhs.bits() {
+                count = Expr::zext(lhs.bits(), count)?;
+            }
+
+            // the processor masks the count to 5 bits (6 for 64-bit operands);
+            // the flags are left alone when that is zero
+            let masked_count = Expr::and(
+                count.clone(),
+                expr_const(if lhs.bits() == 64 { 0x3f } else { 0x1f }, count.bits()),
+            )?;
+
+            // the rotation itself is modulo the operand size
+            let count = match lhs.bits() {
+                8 | 16 | 32 | 64 => Expr::and(
+                    count.clone(),
+                    expr_const(lhs.bits() as u64 - 1, count.bits()),
+                )?,
                 _ => {
                     return Err(Error::Custom(format!(
                         "Unsupported rol bits {}",
@@ -3380,10 +3463,6 @@ impl<'s> Semantics<'s> {
                     )))
                 }
             };
-
-            if count.bits() < lhs.bits() {
-                count = Expr::zext(lhs.bits(), count)?;
-            }
 
             let shift_left_bits = count;
             let shift_right_bits = Expr::sub(
@@ -3396,58 +3475,55 @@ impl<'s> Semantics<'s> {
                 Expr::shr(lhs, shift_right_bits)?,
             )?;
 
-            // CF is the bit sent from one end to the other. In our case, it should be LSB of result
-            block.assign(scalar("CF", 1), Expr::trun(1, result.clone())?);
+            // CF is the bit sent from one end to the other: the LSB of the result
+            let cf = Expr::trun(1, result.clone())?;
 
-            // OF is XOR of two most-significant bits of result
-            block.assign(
-                scalar("OF", 1),
-                Expr::xor(
-                    Expr::trun(
-                        1,
-                        Expr::shr(
-                            result.clone(),
-                            expr_const(result.bits() as u64 - 1, result.bits()),
-                        )?,
-                    )?,
-                    Expr::trun(
-                        1,
-                        Expr::shr(
-                            result.clone(),
-                            expr_const(result.bits() as u64 - 2, result.bits()),
-                        )?,
-                    )?,
-                )?,
-            );
+            // OF is XOR of CF and the most-significant bit of the result
+            let of = Expr::xor(Expr::trun(1, result.clone())?, Self::sf_expr(&result)?)?;
 
             // SF/ZF are unaffected
+            let flags = vec![(scalar("CF", 1), cf), (scalar("OF", 1), of)];
 
-            self.operand_store(block, &detail.operands[0], result)?;
-
-            block.index()
+            (block.index(), masked_count, flags, result)
         };
 
-        control_flow_graph.set_entry(block_index)?;
-        control_flow_graph.set_exit(block_index)?;
-
-        Ok(())
+        self.shift_finish(
+            control_flow_graph,
+            head_index,
+            masked_count,
+            flags,
+            &detail.operands[0],
+            result,
+        )
     }
 
     pub fn ror(&self, control_flow_graph: &mut ControlFlowGraph) -> Result<(), Error> {
         let detail = self.details()?;
 
-        let block_index = {
+        let (head_index, masked_count, flags, result) = {
             let block = control_flow_graph.new_block()?;
 
             // get operands
             let lhs = self.operand_load(block, &detail.operands[0])?;
-            let count = self.operand_load(block, &detail.operands[1])?;
+            let mut count = self.operand_load(block, &detail.operands[1])?;
 
-            let mut count = match lhs.bits() {
-                8 => Expr::and(count.clone(), expr_const(0x7, count.bits()))?,
-                16 => Expr::and(count.clone(), expr_const(0xf, count.bits()))?,
-                32 => Expr::and(count.clone(), expr_const(0x1f, count.bits()))?,
-                64 => Expr::and(count.clone(), expr_const(0x3f, count.bits()))?,
+            if count.bits() < lhs.bits() {
+                count = Expr::zext(lhs.bits(), count)?;
+            }
+
+            // the processor masks the count to 5 bits (6 for 64-bit operands);
+            // the flags are left alone when that is zero
+            let masked_count = Expr::and(
+                count.clone(),
+                expr_const(if lhs.bits() == 64 { 0x3f } else { 0x1f }, count.bits()),
+            )?;
+
+            // the rotation itself is modulo the operand size
+            let count = match lhs.bits() {
+                8 | 16 | 32 | 64 => Expr::and(
+                    count.clone(),
+                    expr_const(lhs.bits() as u64 - 1, count.bits()),
+                )?,
                 _ => {
                     return Err(Error::Custom(format!(
                         "Unsupported ror bits {}",
@@ -3455,10 +3531,6 @@ impl<'s> Semantics<'s> {
                     )))
                 }
             };
-
-            if count.bits() < lhs.bits() {
-                count = Expr::zext(lhs.bits(), count)?;
-            }
 
             let shift_right_bits = count;
             let shift_left_bits = Expr::sub(
@@ -3471,51 +3543,35 @@ impl<'s> Semantics<'s> {
                 Expr::shr(lhs, shift_right_bits)?,
             )?;
 
-            // CF is the bit sent from one end to the other. In our case, it should be MSB of result
-            block.assign(
-                scalar("CF", 1),
+            // CF is the bit sent from one end to the other: the MSB of the result
+            let cf = Self::sf_expr(&result)?;
+
+            // OF is XOR of the two most-significant bits of the result
+            let of = Expr::xor(
+                Self::sf_expr(&result)?,
                 Expr::trun(
                     1,
                     Expr::shr(
                         result.clone(),
-                        expr_const(result.bits() as u64 - 1, result.bits()),
+                        expr_const(result.bits() as u64 - 2, result.bits()),
                     )?,
                 )?,
-            );
-
-            // OF is XOR of two most-significant bits of result
-            block.assign(
-                scalar("OF", 1),
-                Expr::xor(
-                    Expr::trun(
-                        1,
-                        Expr::shr(
-                            result.clone(),
-                            expr_const(result.bits() as u64 - 1, result.bits()),
-                        )?,
-                    )?,
-                    Expr::trun(
-                        1,
-                        Expr::shr(
-                            result.clone(),
-                            expr_const(result.bits() as u64 - 2, result.bits()),
-                        )?,
-                    )?,
-                )?,
-            );
+            )?;
 
             // SF/ZF are unaffected
+            let flags = vec![(scalar("CF", 1), cf), (scalar("OF", 1), of)];
 
-            // store result
-            self.operand_store(block, &detail.operands[0], result)?;
-
-            block.index()
+            (block.index(), masked_count, flags, result)
         };
 
-        control_flow_graph.set_entry(block_index)?;
-        control_flow_graph.set_exit(block_index)?;
-
-        Ok(())
+        self.shift_finish(
+            control_flow_graph,
+            head_index,
+            masked_count,
+            flags,
+            &detail.operands[0],
+            result,
+        )
     }
 
     pub fn sahf(&self, control_flow_graph: &mut ControlFlowGraph) -> Result<(), Error> {
@@ -3548,7 +3604,7 @@ impl<'s> Semantics<'s> {
     pub fn sar(&self, control_flow_graph: &mut ControlFlowGraph) -> Result<(), Error> {
         let detail = self.details()?;
 
-        let block_index = {
+        let (head_index, count, flags, result) = {
             let block = control_flow_graph.new_block()?;
 
             // get operands
@@ -3565,39 +3621,39 @@ impl<'s> Semantics<'s> {
                 expr_const(if lhs.bits() == 64 { 0x3f } else { 0x1f }, lhs.bits()),
             )?;
 
-            // Do the SAR
             let expr = Expr::ashr(lhs.clone(), rhs.clone())?;
 
-            // CF is the last bit shifted out
-            // This will give us a bit mask if rhs is not equal to zero
-            let non_zero_mask = Expr::sub(
-                expr_const(0, rhs.bits()),
-                Expr::zext(
-                    rhs.bits(),
-                    Expr::cmpneq(rhs.clone(), expr_const(0, rhs.bits()))?,
+            // CF is the last bit shifted out: shift lhs right by (rhs - 1)
+            let cf = Expr::trun(
+                1,
+                Expr::ashr(
+                    lhs.clone(),
+                    Expr::sub(rhs.clone(), expr_const(1, rhs.bits()))?,
                 )?,
             )?;
-            // This shifts lhs right by (rhs - 1)
-            let cf = Expr::shr(lhs, Expr::sub(rhs.clone(), expr_const(1, rhs.bits()))?)?;
-            // Apply mask
-            let cf = Expr::trun(1, Expr::and(cf, non_zero_mask)?)?;
-            block.assign(scalar("CF", 1), cf);
 
-            // OF is the last bit shifted out
-            block.assign(scalar("OF", 1), expr_const(0, 1));
+            // OF is cleared
+            let of = expr_const(0, 1);
 
-            self.set_zf(block, expr.clone())?;
-            self.set_sf(block, expr.clone())?;
+            let flags = vec![
+                (scalar("CF", 1), cf),
+                (scalar("OF", 1), of),
+                (scalar("ZF", 1), Self::zf_expr(&expr)?),
+                (scalar("SF", 1), Self::sf_expr(&expr)?),
+            ];
 
-            self.operand_store(block, &detail.operands[0], expr)?;
-
-            block.index()
+            (block.index(), rhs, flags, expr)
         };
 
-        control_flow_graph.set_entry(block_index)?;
-        control_flow_graph.set_exit(block_index)?;
-
-        Ok(())
+        // a count of zero changes no flag
+        self.shift_finish(
+            control_flow_graph,
+            head_index,
+            count,
+            flags,
+            &detail.operands[0],
+            result,
+        )
     }
 
     pub fn sbb(&self, control_flow_graph: &mut ControlFlowGraph) -> Result<(), Error> {
@@ -3800,7 +3856,7 @@ impl<'s> Semantics<'s> {
     pub fn shl(&self, control_flow_graph: &mut ControlFlowGraph) -> Result<(), Error> {
         let detail = self.details()?;
 
-        let block_index = {
+        let (head_index, count, flags, result) = {
             let block = control_flow_graph.new_block()?;
 
             // get operands
@@ -3817,56 +3873,47 @@ impl<'s> Semantics<'s> {
                 expr_const(if lhs.bits() == 64 { 0x3f } else { 0x1f }, lhs.bits()),
             )?;
 
-            // Do the SHL
             let expr = Expr::shl(lhs.clone(), rhs.clone())?;
 
-            // CF is the last bit shifted out
-            // This will give us a bit mask if rhs is not equal to zero
-            let non_zero_mask = Expr::sub(
-                expr_const(0, rhs.bits()),
-                Expr::zext(
-                    rhs.bits(),
-                    Expr::cmpneq(rhs.clone(), expr_const(0, rhs.bits()))?,
-                )?,
+            // CF is the last bit shifted out: shift lhs left by (rhs - 1), putting
+            // the last-shifted-out bit at the MSB
+            let cf = Expr::shl(
+                lhs.clone(),
+                Expr::sub(rhs.clone(), expr_const(1, rhs.bits()))?,
             )?;
-            // Shift lhs left by (rhs - 1), putting the last-shifted-out bit at the MSB
-            let cf = Expr::shl(lhs, Expr::sub(rhs.clone(), expr_const(1, rhs.bits()))?)?;
-            // Extract MSB (shift right by bits-1), then apply non-zero mask
-            let cf = Expr::shr(cf.clone(), expr_const(cf.bits() as u64 - 1, cf.bits()))?;
-            let cf = Expr::trun(1, Expr::and(cf, non_zero_mask)?)?;
-            block.assign(scalar("CF", 1), cf.clone());
+            let cf = Expr::trun(
+                1,
+                Expr::shr(cf.clone(), expr_const(cf.bits() as u64 - 1, cf.bits()))?,
+            )?;
 
             // OF (count==1): OF = MSB(result) XOR CF
-            let of = Expr::xor(
-                cf,
-                Expr::trun(
-                    1,
-                    Expr::shr(
-                        expr.clone(),
-                        expr_const(expr.bits() as u64 - 1, expr.bits()),
-                    )?,
-                )?,
-            )?;
-            block.assign(scalar("OF", 1), of);
+            let of = Expr::xor(cf.clone(), Self::sf_expr(&expr)?)?;
 
-            self.set_zf(block, expr.clone())?;
-            self.set_sf(block, expr.clone())?;
+            let flags = vec![
+                (scalar("CF", 1), cf),
+                (scalar("OF", 1), of),
+                (scalar("ZF", 1), Self::zf_expr(&expr)?),
+                (scalar("SF", 1), Self::sf_expr(&expr)?),
+            ];
 
-            self.operand_store(block, &detail.operands[0], expr)?;
-
-            block.index()
+            (block.index(), rhs, flags, expr)
         };
 
-        control_flow_graph.set_entry(block_index)?;
-        control_flow_graph.set_exit(block_index)?;
-
-        Ok(())
+        // a count of zero changes no flag
+        self.shift_finish(
+            control_flow_graph,
+            head_index,
+            count,
+            flags,
+            &detail.operands[0],
+            result,
+        )
     }
 
     pub fn shr(&self, control_flow_graph: &mut ControlFlowGraph) -> Result<(), Error> {
         let detail = self.details()?;
 
-        let block_index = {
+        let (head_index, count, flags, result) = {
             let block = control_flow_graph.new_block()?;
 
             // get operands
@@ -3883,54 +3930,45 @@ impl<'s> Semantics<'s> {
                 expr_const(if lhs.bits() == 64 { 0x3f } else { 0x1f }, lhs.bits()),
             )?;
 
-            // Do the SHR
             let expr = Expr::shr(lhs.clone(), rhs.clone())?;
 
-            // CF is the last bit shifted out
-            // This will give us a bit mask if rhs is not equal to zero
-            let non_zero_mask = Expr::sub(
-                expr_const(0, rhs.bits()),
-                Expr::zext(
-                    rhs.bits(),
-                    Expr::cmpneq(rhs.clone(), expr_const(0, rhs.bits()))?,
+            // CF is the last bit shifted out: shift lhs right by (rhs - 1)
+            let cf = Expr::trun(
+                1,
+                Expr::shr(
+                    lhs.clone(),
+                    Expr::sub(rhs.clone(), expr_const(1, rhs.bits()))?,
                 )?,
             )?;
-            // This shifts lhs right by (rhs - 1)
-            let cf = Expr::shr(
-                lhs.clone(),
-                Expr::sub(rhs.clone(), expr_const(1, rhs.bits()))?,
-            )?;
-            // Apply mask
-            let cf = Expr::trun(1, Expr::and(cf, non_zero_mask)?)?;
-            block.assign(scalar("CF", 1), cf);
 
             // OF set to most significant bit of the original operand
-            block.assign(
-                scalar("OF", 1),
-                Expr::trun(
-                    1,
-                    Expr::shr(lhs.clone(), expr_const(lhs.bits() as u64 - 1, lhs.bits()))?,
-                )?,
-            );
+            let of = Self::sf_expr(&lhs)?;
 
-            self.set_zf(block, expr.clone())?;
-            self.set_sf(block, expr.clone())?;
+            let flags = vec![
+                (scalar("CF", 1), cf),
+                (scalar("OF", 1), of),
+                (scalar("ZF", 1), Self::zf_expr(&expr)?),
+                (scalar("SF", 1), Self::sf_expr(&expr)?),
+            ];
 
-            self.operand_store(block, &detail.operands[0], expr)?;
-
-            block.index()
+            (block.index(), rhs, flags, expr)
         };
 
-        control_flow_graph.set_entry(block_index)?;
-        control_flow_graph.set_exit(block_index)?;
-
-        Ok(())
+        // a count of zero changes no flag
+        self.shift_finish(
+            control_flow_graph,
+            head_index,
+            count,
+            flags,
+            &detail.operands[0],
+            result,
+        )
     }
 
     pub fn shld(&self, control_flow_graph: &mut ControlFlowGraph) -> Result<(), Error> {
         let detail = self.details()?;
 
-        let block_index = {
+        let (head_index, count, flags, result) = {
             let block = control_flow_graph.new_block()?;
 
             // get operands
@@ -3939,6 +3977,14 @@ impl<'s> Semantics<'s> {
             let count = self.operand_load(block, &detail.operands[2])?;
 
             let bits = dst.bits();
+
+            // the processor masks the count to 5 bits (6 for 64-bit operands)
+            let count = Expr::and(
+                count.clone(),
+                expr_const(if bits == 64 { 0x3f } else { 0x1f }, count.bits()),
+            )?;
+            let wide_count = Expr::zext(bits * 2, count.clone())?;
+
             let tmp = Expr::or(
                 Expr::shl(
                     Expr::zext(bits * 2, dst.clone())?,
@@ -3947,46 +3993,44 @@ impl<'s> Semantics<'s> {
                 Expr::zext(bits * 2, rhs)?,
             )?;
 
-            let shifted = Expr::shl(tmp.clone(), Expr::zext(tmp.bits(), count.clone())?)?;
+            let shifted = Expr::shl(tmp.clone(), wide_count.clone())?;
             // Extract the high bits (the SHLD result)
             let result = Expr::trun(bits, Expr::shr(shifted, expr_const(bits as u64, bits * 2))?)?;
 
             // CF = last bit shifted out = MSB of (tmp << (count-1))
-            let cf_shifted = Expr::shl(
-                tmp.clone(),
-                Expr::zext(
-                    tmp.bits(),
-                    Expr::sub(count.clone(), expr_const(1, count.bits()))?,
-                )?,
-            )?;
-            let cf = Expr::trun(
-                1,
-                Expr::shr(
-                    cf_shifted.clone(),
-                    expr_const(cf_shifted.bits() as u64 - 1, cf_shifted.bits()),
-                )?,
-            )?;
+            let cf = Self::sf_expr(&Expr::shl(
+                tmp,
+                Expr::sub(wide_count, expr_const(1, bits * 2))?,
+            )?)?;
 
-            block.assign(scalar("CF", 1), cf);
+            // OF (count==1): set when the sign changed
+            let of = Expr::xor(Self::sf_expr(&dst)?, Self::sf_expr(&result)?)?;
 
-            self.set_zf(block, result.clone())?;
-            self.set_sf(block, result.clone())?;
+            let flags = vec![
+                (scalar("CF", 1), cf),
+                (scalar("OF", 1), of),
+                (scalar("ZF", 1), Self::zf_expr(&result)?),
+                (scalar("SF", 1), Self::sf_expr(&result)?),
+            ];
 
-            self.operand_store(block, &detail.operands[0], result)?;
-
-            block.index()
+            (block.index(), count, flags, result)
         };
 
-        control_flow_graph.set_entry(block_index)?;
-        control_flow_graph.set_exit(block_index)?;
-
-        Ok(())
+        // a count of zero changes neither the flags nor the destination
+        self.shift_finish(
+            control_flow_graph,
+            head_index,
+            count,
+            flags,
+            &detail.operands[0],
+            result,
+        )
     }
 
     pub fn shrd(&self, control_flow_graph: &mut ControlFlowGraph) -> Result<(), Error> {
         let detail = self.details()?;
 
-        let block_index = {
+        let (head_index, count, flags, result) = {
             let block = control_flow_graph.new_block()?;
 
             // get operands
@@ -3995,6 +4039,14 @@ impl<'s> Semantics<'s> {
             let count = self.operand_load(block, &detail.operands[2])?;
 
             let bits = dst.bits();
+
+            // the processor masks the count to 5 bits (6 for 64-bit operands)
+            let count = Expr::and(
+                count.clone(),
+                expr_const(if bits == 64 { 0x3f } else { 0x1f }, count.bits()),
+            )?;
+            let wide_count = Expr::zext(bits * 2, count.clone())?;
+
             let tmp = Expr::or(
                 Expr::zext(bits * 2, dst.clone())?,
                 Expr::shl(
@@ -4003,36 +4055,38 @@ impl<'s> Semantics<'s> {
                 )?,
             )?;
 
-            let shifted = Expr::shr(tmp.clone(), Expr::zext(tmp.bits(), count.clone())?)?;
+            let shifted = Expr::shr(tmp.clone(), wide_count.clone())?;
             // Extract the low bits (the SHRD result)
             let result = Expr::trun(bits, shifted)?;
 
-            // CF = last bit shifted out (trun(1) is correct for right shift)
+            // CF = last bit shifted out = LSB of (tmp >> (count-1))
             let cf = Expr::trun(
                 1,
-                Expr::shr(
-                    tmp.clone(),
-                    Expr::zext(
-                        tmp.bits(),
-                        Expr::sub(count.clone(), expr_const(1, count.bits()))?,
-                    )?,
-                )?,
+                Expr::shr(tmp, Expr::sub(wide_count, expr_const(1, bits * 2))?)?,
             )?;
 
-            block.assign(scalar("CF", 1), cf);
+            // OF (count==1): set when the sign changed
+            let of = Expr::xor(Self::sf_expr(&dst)?, Self::sf_expr(&result)?)?;
 
-            self.set_zf(block, result.clone())?;
-            self.set_sf(block, result.clone())?;
+            let flags = vec![
+                (scalar("CF", 1), cf),
+                (scalar("OF", 1), of),
+                (scalar("ZF", 1), Self::zf_expr(&result)?),
+                (scalar("SF", 1), Self::sf_expr(&result)?),
+            ];
 
-            self.operand_store(block, &detail.operands[0], result)?;
-
-            block.index()
+            (block.index(), count, flags, result)
         };
 
-        control_flow_graph.set_entry(block_index)?;
-        control_flow_graph.set_exit(block_index)?;
-
-        Ok(())
+        // a count of zero changes neither the flags nor the destination
+        self.shift_finish(
+            control_flow_graph,
+            head_index,
+            count,
+            flags,
+            &detail.operands[0],
+            result,
+        )
     }
 
     pub fn stc(&self, control_flow_graph: &mut ControlFlowGraph) -> Result<(), Error> {
